@@ -234,6 +234,9 @@ struct Child {
     to: u64,
     journal: PathBuf,
     out: PathBuf,
+    /// last journal entry seen by the supervisor and when it last changed (stall watchdog)
+    seen: Option<(u64, u64)>,
+    since: Instant,
 }
 
 fn spawn_worker(exe: &Path, a: &RunArgs, from: u64, to: u64, tag: &str, step_journal: bool) -> std::io::Result<Child> {
@@ -261,7 +264,7 @@ fn spawn_worker(exe: &Path, a: &RunArgs, from: u64, to: u64, tag: &str, step_jou
     if step_journal {
         c.arg("--step-journal");
     }
-    Ok(Child { proc: c.spawn()?, from, to, journal, out })
+    Ok(Child { proc: c.spawn()?, from, to, journal, out, seen: None, since: Instant::now() })
 }
 
 pub fn feature_tag() -> String {
@@ -281,6 +284,9 @@ pub struct Summary {
     pub aborts: u64,
 }
 
+/// A worker that stays inside one run for this long is treated as hung (checked again alone before anything is reported).
+const STALL_S: u64 = 40;
+
 pub fn run_parent(a: &RunArgs) -> Summary {
     let exe = std::env::current_exe().expect("current_exe");
     std::fs::create_dir_all(&a.tmp).ok();
@@ -292,6 +298,8 @@ pub fn run_parent(a: &RunArgs) -> Summary {
     let mut raw_violations: Vec<Violation> = Vec::new();
     let mut errors: Vec<String> = Vec::new();
     let mut aborts = 0u64;
+    let mut stalls = 0u64;
+    let mut hangs_confirmed = 0u64;
 
     // interleaved chunks so that every worker sees a mix of cheap and expensive runs
     let w = a.workers.max(1) as u64;
@@ -356,12 +364,57 @@ pub fn run_parent(a: &RunArgs) -> Summary {
                     let _ = std::fs::remove_file(&c.journal);
                     let _ = std::fs::remove_file(&c.out);
                 }
-                Ok(None) => k += 1,
+                Ok(None) => {
+                    // stall watchdog: a worker whose journal has not moved for STALL_S seconds is inside one
+                    // exchange that does not return (a run normally takes milliseconds, a soak run seconds)
+                    let now_entry = journal_read(&live[k].journal);
+                    if now_entry != live[k].seen {
+                        live[k].seen = now_entry;
+                        live[k].since = Instant::now();
+                        k += 1;
+                    } else if live[k].since.elapsed() > Duration::from_secs(STALL_S) {
+                        let mut c = live.remove(k);
+                        let _ = c.proc.kill();
+                        let _ = c.proc.wait();
+                        progressed = true;
+                        let (run, _) = now_entry.unwrap_or((c.from, u64::MAX));
+                        if run > c.from {
+                            pending.push((c.from, run));
+                        }
+                        if run + 1 < c.to {
+                            pending.push((run + 1, c.to));
+                        }
+                        stalls += 1;
+                        if stalls <= 2 {
+                            match isolate_hang(&exe, a, run) {
+                                Some(v) => {
+                                    raw_violations.push(v);
+                                    hangs_confirmed += 1;
+                                }
+                                None => errors.push(format!("a worker made no progress for {} s in run {}, but the run finishes when executed alone", STALL_S, run)),
+                            }
+                        }
+                        let _ = std::fs::remove_file(&c.journal);
+                        let _ = std::fs::remove_file(&c.out);
+                    } else {
+                        k += 1;
+                    }
+                }
                 Err(e) => {
                     errors.push(format!("wait failed: {}", e));
                     live.remove(k);
                 }
             }
+        }
+        if hangs_confirmed >= 1 {
+            // a confirmed hang is a verdict; the rest of the batch would mostly wait for further stalls
+            for mut c in live.drain(..) {
+                let _ = c.proc.kill();
+                let _ = c.proc.wait();
+                let _ = std::fs::remove_file(&c.journal);
+                let _ = std::fs::remove_file(&c.out);
+            }
+            break;
         }
         if Instant::now() > deadline {
             // hang watchdog: which runs were in flight?
@@ -387,8 +440,9 @@ pub fn run_parent(a: &RunArgs) -> Summary {
     let mut seen_rules = std::collections::BTreeSet::new();
     for v in raw_violations {
         // one report per (rule) is enough for a verdict; further ones are counted
-        if !seen_rules.insert(v.rule.clone()) && violations.len() >= 3 {
-            continue;
+        let first_of_rule = seen_rules.insert(v.rule.clone());
+        if !first_of_rule && (violations.len() >= 3 || v.rule == "hang") {
+            continue; // (each further hang costs minutes of waiting to confirm)
         }
         if violations.len() >= 8 {
             break;
@@ -428,6 +482,27 @@ fn isolate_abort(exe: &Path, a: &RunArgs, run: u64, sig: i32) -> Result<Violatio
     r
 }
 
+const HANG_ALONE_S: u64 = 20;
+/// `simctl replay` gives up (abort, i.e. a signal) after this long
+const REPLAY_LIMIT_S: u64 = 60;
+
+/// Wait for a child, but not for ever.
+fn wait_limited(mut c: std::process::Child, secs: u64) -> Option<std::process::Output> {
+    let t0 = Instant::now();
+    loop {
+        match c.try_wait() {
+            Ok(Some(_)) => return c.wait_with_output().ok(),
+            Ok(None) if t0.elapsed() > Duration::from_secs(secs) => {
+                let _ = c.kill();
+                let _ = c.wait();
+                return None;
+            }
+            Ok(None) => std::thread::sleep(Duration::from_millis(10)),
+            Err(_) => return None,
+        }
+    }
+}
+
 fn isolate_hang(exe: &Path, a: &RunArgs, run: u64) -> Option<Violation> {
     let mut c = spawn_worker(exe, a, run, run + 1, &format!("hang{}", run), true).ok()?;
     let t0 = Instant::now();
@@ -437,7 +512,7 @@ fn isolate_hang(exe: &Path, a: &RunArgs, run: u64) -> Option<Violation> {
             let _ = std::fs::remove_file(&c.out);
             return None;
         }
-        if t0.elapsed() > Duration::from_secs(10) {
+        if t0.elapsed() > Duration::from_secs(HANG_ALONE_S) {
             let _ = c.proc.kill();
             let _ = c.proc.wait();
             let (_, step) = journal_read(&c.journal).unwrap_or((run, 0));
@@ -447,7 +522,7 @@ fn isolate_hang(exe: &Path, a: &RunArgs, run: u64) -> Option<Violation> {
             return Some(Violation {
                 property: a.prop.id().to_string(),
                 rule: "hang".into(),
-                detail: "exchange did not finish within 10 s when executed alone".into(),
+                detail: format!("exchange did not finish within {} s when executed alone", HANG_ALONE_S),
                 run,
                 at_step: at,
                 steps: steps[..=at].iter().map(|s| s.to_json()).collect(),
@@ -650,8 +725,9 @@ fn range_fails(exe: &Path, a: &RunArgs, from: u64, run: u64, rule: &str) -> Opti
         .stdin(Stdio::null())
         .stdout(Stdio::piped())
         .stderr(Stdio::null())
-        .output()
-        .ok()?;
+        .spawn()
+        .ok()
+        .and_then(|c| wait_limited(c, 900))?;
     let text = String::from_utf8_lossy(&out.stdout).to_string();
     let line = text.lines().find(|l| l.starts_with("RANGE-FINDING"))?;
     if !line.contains(&format!("rule={} ", rule)) {
@@ -762,7 +838,10 @@ fn finalise_violation(exe: &Path, a: &RunArgs, v: Violation) -> Result<(Violatio
     if let Some(r) = a.runs_override {
         cmd.arg("--runs").arg(r.to_string());
     }
-    let st = cmd.stdin(Stdio::null()).stdout(Stdio::null()).stderr(Stdio::null()).status();
+    let st: Result<std::process::ExitStatus, String> = match cmd.stdin(Stdio::null()).stdout(Stdio::null()).stderr(Stdio::null()).spawn() {
+        Ok(c) => wait_limited(c, 1200).map(|o| o.status).ok_or_else(|| "did not finish within 1200 s".to_string()),
+        Err(e) => Err(e.to_string()),
+    };
     let _ = std::fs::remove_file(&vf);
     let parsed = std::fs::read_to_string(&of).ok().and_then(|t| json::parse(&t).ok());
     let _ = std::fs::remove_file(&of);
@@ -900,6 +979,23 @@ pub fn replay(path: &Path) -> i32 {
         }
     }
     let rule = rule.to_string();
+    // every replay terminates: an exchange that never returns is the `hang` rule reproducing, and for any
+    // other rule it must not hang the supervisor that is waiting for this process
+    {
+        let limit = if j.get("history").is_some() { 900 } else if rule == "hang" { HANG_ALONE_S } else { REPLAY_LIMIT_S };
+        let (rule2, pid) = (rule.clone(), prop.id());
+        std::thread::spawn(move || {
+            std::thread::sleep(Duration::from_secs(limit));
+            if rule2 == "hang" {
+                println!("REPRODUCED property={} rule=hang (the trace did not finish within {} s) log_hash={:016x}", pid, limit, 0);
+            } else {
+                println!("TIMEOUT: the trace did not finish within {} s", limit);
+            }
+            use std::io::Write;
+            let _ = std::io::stdout().flush();
+            std::process::abort();
+        });
+    }
     if let Some(h) = j.get("history") {
         let (Some(from), Some(run), Some(seed), Some(tier)) = (
             h.get("from").and_then(|x| x.int()),
@@ -1021,8 +1117,21 @@ pub fn selfcheck(a: &RunArgs, runs: u64) -> (u64, u64, Vec<String>) {
             start = end;
             n += 1;
         }
+        // a run that never returns must not hang the self-check: the main pass has the watchdog that reports it
+        let deadline = Instant::now() + Duration::from_secs(if runs > 1000 { 900 } else { 240 });
         for (mut c, hp, out) in kids {
-            let _ = c.wait();
+            loop {
+                match c.try_wait() {
+                    Ok(Some(_)) | Err(_) => break,
+                    Ok(None) if Instant::now() > deadline => {
+                        let _ = c.kill();
+                        let _ = c.wait();
+                        errors.push("determinism selfcheck: a worker did not finish in time and was stopped (see the main pass for a hang)".to_string());
+                        break;
+                    }
+                    Ok(None) => std::thread::sleep(Duration::from_millis(10)),
+                }
+            }
             if let Ok(b) = std::fs::read(&hp) {
                 for ch in b.chunks_exact(16) {
                     map.insert(u64::from_le_bytes(ch[..8].try_into().unwrap()), u64::from_le_bytes(ch[8..].try_into().unwrap()));
